@@ -161,6 +161,10 @@ func (c *Channel) Deliver(out, x []byte) ([]byte, error) {
 				}
 			}
 			if isApp {
+				if c.sessions[1].Session == s {
+					// authenticated traffic keeps the current session alive
+					c.lastReceived = now
+				}
 				appData = out
 				return nil, nil
 			}
